@@ -19,7 +19,7 @@ RULE = (
     "case = (weight type, score kind, three values a,b,c, star operand); values are the class "
     "constants zero/one, freshly constructed copies of them, or drawn scores (Boolean exhaustive; "
     "Real/Float ints, Fractions, floats; MaxPlus ints and -inf; MaxTimes non-negative Fractions; Log "
-    "finite floats and -inf; Expectation/Entropy pairs); all additive, multiplicative, distributive, "
+    "finite floats in [-6,3], scores hundreds of nats apart (-38 .. -1000, 37 .. 300) and -inf; Expectation/Entropy pairs); all additive, multiplicative, distributive, "
     "annihilation and commutativity laws plus star(x) = 1 + x star(x) = 1 + star(x) x where the series "
     "converges; non-trivial = no operand is a constant or a copy of one; distinct = SHA-1 of the case"
 )
@@ -62,7 +62,9 @@ def value(draw, T, kind):
     if T == "MaxTimes":
         return str(draw(st.fractions(min_value=0, max_value=3, max_denominator=8)))
     if T == "Log":
-        return draw(st.one_of(st.just("-inf"), st.floats(min_value=-6, max_value=3, allow_nan=False, width=32).map(repr)))
+        # log-probabilities span hundreds of nats in practice (a 100-token string at p=0.01 is -460):
+        # a quarter of the values are far apart, where one addend vanishes next to the other
+        return draw(st.one_of(st.just("-inf"), st.floats(min_value=-6, max_value=3, allow_nan=False, width=32).map(repr), st.floats(min_value=-6, max_value=3, allow_nan=False, width=32).map(repr), st.sampled_from(["-38.0", "-40.5", "-100.0", "-460.0", "-745.0", "-1000.0", "37.5", "80.0", "300.0"])))
     # pairs
     if kind == "frac":
         return str(draw(st.fractions(min_value=0, max_value=2, max_denominator=8))) + "," + str(draw(st.fractions(min_value=-2, max_value=2, max_denominator=8)))
